@@ -165,6 +165,12 @@ pub fn poly_case(cx: &mut Ctx, n: u64, case: &Value) {
             for (t, sgn, what) in [(Triangle(a0, b0, c0), exact_sign, "Triangle(a, b, c)"), (Triangle(a0, c0, b0), -exact_sign, "Triangle(a, c, b)"),
                                    (Triangle::from([c0, b0, a0]), -exact_sign, "Triangle::from([c, b, a])"), (Triangle::from([b0, c0, a0]), exact_sign, "Triangle::from([b, c, a])")] {
                 eqf("triangle_area_any_order", &format!("{what}.unsigned_area"), t.unsigned_area(), tri2 / 2.0);
+                {
+                    // the free function triangle_winding_order: the stored order of the triangle, None for a flat one
+                    let w = geo::algorithm::winding_order::triangle_winding_order(&t);
+                    let want_w = if sgn > 0.0 { Some(WindingOrder::CounterClockwise) } else if sgn < 0.0 { Some(WindingOrder::Clockwise) } else { None };
+                    eqf("triangle_area_any_order", &format!("triangle_winding_order({what}) = {w:?}, want {want_w:?}"), if w == want_w { 1.0 } else { 0.0 }, 1.0);
+                }
                 eqf("triangle_area_any_order", &format!("{what}.signed_area"), t.signed_area(), sgn * tri2 / 2.0);
                 eqf("triangle_area_any_order", &format!("{what}.to_polygon().signed_area"), t.to_polygon().signed_area(), sgn * tri2 / 2.0);
                 eqf("triangle_area_any_order", &format!("Geometry::{what}.unsigned_area"), Geometry::Triangle(t).unsigned_area(), tri2 / 2.0);
